@@ -46,6 +46,9 @@ SCOPE_PROGS = [
     'def f(v):\n    try:\n        g()\n    except E1 as _:\n        h(_)\n    except E2 as _e:\n        pass\n    match v:\n        case [_, *_]:\n            pass\n        case {"k": _, **_r}:\n            pass\n        case C(_, a=_) as _w:\n            pass\n    return _\n',
     'def f(v):\n    match v:\n        case [_, *_] | (_ as _):\n            pass\n' if False else 'def f(v):\n    for _ in v:\n        pass\n    with v as _:\n        pass\n    return [_ for _ in v], (lambda _: _), _\n',
     'try:\n    pass\nexcept* E as _:\n    use(_)\n',
+    # names declared global / nonlocal and only READ (or only deleted) in the scope
+    'def f():\n    global g\n    return g\n', 'def o():\n    v = 1\n    def i():\n        nonlocal v\n        return v\n    return i\n', 'class K:\n    global q\n    r = q\n',
+    'def f():\n    global g, h\n    del g\n    return h, j\n',
     'class C(B1, B2, metaclass=Meta, **kwbase):\n    def m(self, a: Ann1 = Dflt1, /, b=Dflt2, *va: Ann2, c: Ann3 = Dflt3, **kw: Ann4) -> Ret: return a\n',
 ]
 
